@@ -391,7 +391,7 @@ def bottomPutCheck (kind : Kind) (inTxn : Bool) (k : Key) : Option (Except Strin
   | .fsm => if k = [] then some (.error "keyrequired") else if k.length > maxKeySize then some (.error "keytoolarge") else some (.ok ())
   | .raft =>
     if k.length > maxKeySize then some (.error "keytoolarge")
-    else if k = [] then none   -- an empty key through RaftBackend.Put panics the FSM goroutine: never driven
+    else if k = [] then some (.error "keyrequired")   -- refused before it is proposed (bbolt cannot store it; repair F62)
     else if (utf8Decode k).isNone then
       -- the log entry is a protobuf message with a `string` key: marshalling refuses invalid UTF-8. Outside a
       -- transaction that is the Put's error; inside one it only surfaces at Commit (not modelled: never driven)
